@@ -206,7 +206,7 @@ def enterRule (s : SchemaD) (fx : Fixes) (r : Rule) (n : Node) (ti : TI) (st : R
     if st.opNames.contains nm then (st.err r, true) else ({ st with opNames := nm :: st.opNames }, false)
   | loneAnonymousOperation, .document d =>
     let ops := d.defs.filter (·.isOp)
-    let anon := ops.any fun | .op _ none .. => true | _ => false
+    let anon := ops.any (·.isAnonOp)
     if anon && ops.length > 1 then (st.err r, true) else (st, false)
   | singleFieldSubscriptions, .operation kind _ _ _ sels =>
     (if kind == "subscription" && sels.length != 1 then st.err r else st, false)
